@@ -303,54 +303,86 @@ func checkC20(c *Ctx) {
 
 	// INPUT-SHAPE: text -> fields{"message": string(data)}
 	okMsg := false
+	// runScript itself and the same-package helpers it hands the input to (the construction of the point data may
+	// have been moved out); actual(v) = the caller's argument when v is such a helper's parameter
+	type inCtx struct {
+		g   *ssa.Function
+		via *ssa.Call
+	}
+	inCtxs := []inCtx{{rs, nil}}
 	allInstrs(rs, func(in ssa.Instruction) {
-		if mu, ok := in.(*ssa.MapUpdate); ok {
-			if kc, ok := mu.Key.(*ssa.Const); ok && kc.Value != nil && kc.Value.ExactString() == `"message"` {
-				v := unwrapIface(mu.Value)
-				if cv, ok := v.(*ssa.Convert); ok && strings.Contains(path(cv.X), "ReadFile") {
-					okMsg = true
-				}
+		if call, ok := in.(*ssa.Call); ok {
+			if h := call.Call.StaticCallee(); h != nil && h.Pkg == rs.Pkg && len(h.Blocks) > 0 && h != rs {
+				inCtxs = append(inCtxs, inCtx{h, call})
 			}
 		}
 	})
+	actual := func(ic inCtx, v ssa.Value) ssa.Value {
+		if ic.via == nil {
+			return v
+		}
+		for k, prm := range ic.g.Params {
+			if v == ssa.Value(prm) && k < len(ic.via.Call.Args) {
+				return ic.via.Call.Args[k]
+			}
+		}
+		return v
+	}
+	for _, ic := range inCtxs {
+		allInstrs(ic.g, func(in ssa.Instruction) {
+			if mu, ok := in.(*ssa.MapUpdate); ok {
+				if kc, ok := mu.Key.(*ssa.Const); ok && kc.Value != nil && kc.Value.ExactString() == `"message"` {
+					v := unwrapIface(mu.Value)
+					if cv, ok := v.(*ssa.Convert); ok && strings.Contains(path(actual(ic, cv.X)), "ReadFile") {
+						okMsg = true
+					}
+				}
+			}
+		})
+	}
 	r.Ob("INPUT-SHAPE", "text input becomes field `message`", t.Pos(rs.Pos()), okMsg, "fields[\"message\"] must be string(<contents of the input file>)")
 	// line protocol: pts[0] and its Name/Tags/Fields/Time
 	got := map[string]bool{}
-	allInstrs(rs, func(in ssa.Instruction) {
-		if call, ok := in.(*ssa.Call); ok {
-			if f := call.Call.StaticCallee(); f != nil && f.Object() != nil && f.Object().Pkg() != nil && strings.Contains(f.Object().Pkg().Path(), "influxdb1-client") {
-				got[f.Name()] = true
-				if f.Name() == "NewPointFrom" {
-					p := path(call.Call.Args[0])
-					got["pts[0]"] = strings.HasSuffix(p, "[0]")
+	for _, ic := range inCtxs {
+		allInstrs(ic.g, func(in ssa.Instruction) {
+			if call, ok := in.(*ssa.Call); ok {
+				if f := call.Call.StaticCallee(); f != nil && f.Object() != nil && f.Object().Pkg() != nil && strings.Contains(f.Object().Pkg().Path(), "influxdb1-client") {
+					got[f.Name()] = true
+					if f.Name() == "NewPointFrom" {
+						p := path(call.Call.Args[0])
+						got["pts[0]"] = strings.HasSuffix(p, "[0]")
+					}
 				}
 			}
-		}
-	})
+		})
+	}
 	// the line-protocol parser must be handed the bytes read from the input file, untransformed
 	{
 		okBytes, found := false, false
-		allInstrs(rs, func(in ssa.Instruction) {
-			call, ok := in.(*ssa.Call)
-			if !ok {
-				return
-			}
-			f := call.Call.StaticCallee()
-			if f == nil || f.Object() == nil || f.Object().Pkg() == nil || !strings.Contains(f.Object().Pkg().Path(), "influxdb1-client/models") || !strings.HasPrefix(f.Name(), "ParsePoints") {
-				return
-			}
-			found = true
-			a0 := call.Call.Args[0]
-			if ex, ok := a0.(*ssa.Extract); ok && ex.Index == 0 {
-				if rc, ok := ex.Tuple.(*ssa.Call); ok && rc.Call.StaticCallee() != nil && rc.Call.StaticCallee().Name() == "ReadFile" && strings.HasSuffix(path(rc.Call.Args[0]), ".Input") {
-					okBytes = true
+		for _, ic := range inCtxs {
+			ic := ic
+			allInstrs(ic.g, func(in ssa.Instruction) {
+				call, ok := in.(*ssa.Call)
+				if !ok {
+					return
 				}
-			}
-			if !okBytes {
-				r.Ob("INPUT-SHAPE", "line protocol parser receives the input file's bytes", t.Pos(call.Pos()), false,
-					"the parser is given "+path(a0)+" instead of the contents of options.Input as read: any pre-processing of the raw bytes (line splitting, trimming) changes which point is built from records that the line-protocol grammar allows (quoted newlines, escapes)")
-			}
-		})
+				f := call.Call.StaticCallee()
+				if f == nil || f.Object() == nil || f.Object().Pkg() == nil || !strings.Contains(f.Object().Pkg().Path(), "influxdb1-client/models") || !strings.HasPrefix(f.Name(), "ParsePoints") {
+					return
+				}
+				found = true
+				a0 := actual(ic, call.Call.Args[0])
+				if ex, ok := a0.(*ssa.Extract); ok && ex.Index == 0 {
+					if rc, ok := ex.Tuple.(*ssa.Call); ok && rc.Call.StaticCallee() != nil && rc.Call.StaticCallee().Name() == "ReadFile" && strings.HasSuffix(path(rc.Call.Args[0]), ".Input") {
+						okBytes = true
+					}
+				}
+				if !okBytes {
+					r.Ob("INPUT-SHAPE", "line protocol parser receives the input file's bytes", t.Pos(call.Pos()), false,
+						"the parser is given "+path(a0)+" instead of the contents of options.Input as read: any pre-processing of the raw bytes (line splitting, trimming) changes which point is built from records that the line-protocol grammar allows (quoted newlines, escapes)")
+				}
+			})
+		}
 		if okBytes {
 			r.Ob("INPUT-SHAPE", "line protocol parser receives the input file's bytes", t.Pos(rs.Pos()), true, "models.ParsePoints*(os.ReadFile(options.Input))")
 		} else if !found {
